@@ -48,7 +48,7 @@ def build_dlis(rng):
             nch = rng.choice([1, 2, 3, 5])
             chs = []
             for c in range(nch):
-                rc = rng.choice([2, 7]) if c == 0 else rng.choice([2, 7, 12, 13, 14, 15, 16, 17, 5])
+                rc = rng.choice([2, 7]) if c == 0 else rng.choice([2, 7, 12, 13, 14, 15, 16, 17, 5, 6])
                 dims = [1] if c == 0 else rng.choice([[1], [1], [2], [3], [2, 2]])
                 name = xnames[t] if c == 0 else b'C%d%d%d' % (lf, t, c)
                 chs.append(dict(name=name, long_name=b'long name %d' % c, rc=rc, units=b'm' if c == 0 else b'', dims=dims))
